@@ -1,4 +1,5 @@
 SPECIFICATION Spec
+CONSTANT LegacyNoTruncate = FALSE
 INVARIANTS RejectClean NothingBeforeParse AcceptComplete Decision Emit
 PROPERTY Terminates
 CHECK_DEADLOCK FALSE
